@@ -84,6 +84,9 @@ def gen_schema(rng):
         if rng.random() < 0.35:
             rels.append({'kind': 'm2o', 'sym': False, 'a': S(rng.randrange(nent)), 'b': S(h, coll=True, casc=True)})
             pack += [('r', len(rels) - 1, 'b'), ('r', len(rels) - 1, 'a')]
+        if rng.random() < 0.5:      # somebody's cascading collection of hubs: removing hubs from it deletes them — or is refused for some
+            rels.append({'kind': 'm2o', 'sym': False, 'a': S(h), 'b': S(rng.randrange(nent), coll=True, casc=True)})
+            pack += [('r', len(rels) - 1, 'b'), ('r', len(rels) - 1, 'a')]
         if rng.random() < 0.65: rels.append({'kind': 'm2o', 'sym': False, 'a': S(dep, req=True), 'b': S(h, coll=True, casc=False)})
         else: rels.append({'kind': 'o2o', 'sym': False, 'a': S(dep, req=True), 'b': S(h, casc=False)})
         pack += [('r', len(rels) - 1, 'b'), ('r', len(rels) - 1, 'a')]
@@ -355,11 +358,26 @@ def plan_late_failure(rng, w):
                 if dead_of(te) and fresh: cands.append(('add', i, c, fresh, dead_of(te), cur))
                 if m['casc'] and len(cur) >= 2 and any(delete_refused(w, x) for x in cur) and not all(delete_refused(w, x) for x in cur):
                     cands.append(('remove', i, c, cur, None, cur))
+                if m['casc']:
+                    pool = [x for x in live_of(te) if x != i]
+                    blocked = [x for x in pool if delete_refused(w, x)]
+                    free = [x for x in pool if not delete_refused(w, x)]
+                    if blocked and free:
+                        for _ in range(3): cands.append(('remove-build', i, c, blocked, free, cur))
         if not cands: return None
         how, i, c, pool, dead, cur = rng.choice(cands)
         if how == 'remove':
             w.plan.append({'k': 'remove', 'o': i, 'a': c, 'items': sorted(cur)})
             return 'plan:remove-cascade-refused-midway'
+        if how == 'remove-build':
+            # put an item whose delete is refused and some whose delete is not into a cascading collection, then remove them together
+            items = sorted(set([rng.choice(pool)] + rng.sample(dead, min(len(dead), rng.choice([1, 2])))))
+            new = [x for x in items if x not in cur]
+            if new: w.plan.append({'k': 'add', 'o': i, 'a': c, 'items': new})
+            if rng.random() < 0.3: w.plan.append({'k': 'flush'})
+            w.plan.append({'k': 'remove' if rng.random() < 0.7 else 'set', 'o': i, 'a': c, 'items': items} if True else None)
+            if w.plan[-1]['k'] == 'set': w.plan[-1] = {'k': 'clear', 'o': i, 'a': c}
+            return 'plan:remove-cascade-refused-midway(built)'
         items = sorted(set(rng.sample(pool, min(len(pool), rng.choice([1, 2, 3]))) + [rng.choice(dead)]))
         if rng.random() < 0.6: w.plan.append({'k': 'add', 'o': i, 'a': c, 'items': items})
         else: w.plan.append({'k': 'set', 'o': i, 'a': c, 'v': {'coll': sorted(set(items + (cur[:1] if rng.random() < 0.5 else [])))}})
